@@ -122,12 +122,25 @@ class Check:
             self.native_failures.append(f)
 
     # ---- verdict
-    def finish(self, oracle=None, known_matcher=None, samples=None):
+    def finish(self, oracle=None, known_matcher=None, samples=None, in_scope=None):
         """oracle(item) -> failing-input dict or None : native replay of a failed obligation.
-        known_matcher(item_or_failure, entry) -> bool."""
+        known_matcher(item_or_failure, entry) -> bool.
+        in_scope(item) -> bool : does this obligation belong to the claim of THIS property?  Several properties share the
+        contracts of the same functions; a clause that only another property states (e.g. the notification trace of C13 inside
+        DoGlobalIteration's contract) is proved under that property's check - here it is a lemma taken from there, and its
+        failure is reported as a note, not as a violation of this property."""
         known = [k for k in load_known() if k.get("property") == self.pid and k.get("status") == "known"]
         baseline = load_baseline().get(self.pid, {})
         failed = [it for it in self.items if it["status"] != "proved"]
+        self.out_of_scope = []
+        if in_scope is not None:
+            self.out_of_scope = [it for it in failed if not in_scope(it)]
+            failed = [it for it in failed if in_scope(it)]
+            for it in self.out_of_scope:
+                print("NOTE: obligation %s (%s) is stated by another property's contract clause and is decided by that "
+                      "property's check; not part of the claim of %s" % (it["name"], it["status"], self.pid), file=sys.stderr)
+            drop = set(id(it) for it in self.out_of_scope)
+            self.items = [it for it in self.items if id(it) not in drop]
         bad_covers = [c for c in self.covers if c[1] == "unsat"]
         exit_code = 0
         lines = []
@@ -260,6 +273,8 @@ class Check:
                 "bounded_stand_ins": self.bounded,
                 "finite_families": self.finite,
                 "known_findings": [k.get("key") for k in self.known_hits],
+                "failed_lemmas_of_other_properties": [dict(obligation=it["name"], status=it["status"], clause=it["clause"][:200])
+                                                      for it in getattr(self, "out_of_scope", [])],
                 "known_finding_obligations": known_obl,
                 "vacuity_covers": {"checked": len(self.covers), "sat": sum(1 for c in self.covers if c[1] == "sat"),
                                    "undecided": [c[0] for c in self.covers if c[1] not in ("sat", "unsat")]},
